@@ -54,6 +54,9 @@ def gen_cases(tier, seed):
             'big': (rng.choice((260, 420)) if i % 3 == 2 else None) if tier == 'quick' or i % 40 else 66000,
             'fresh': (i % 4 == 0) or tier == 'thorough', 'sample': i in (0, 6), 'small_files': i % 3 == 1,
         })
+        if cases[-1]['big'] == 66000:
+            # tx numbers beyond two bytes: sequential scheduling and a larger logical budget for the 66 000-tx block
+            cases[-1].update({'policy': 'eager', 'max_iter': 20_000_000, 'max_jobs': 2_000_000, 'colls': 0})
     return cases
 
 
